@@ -85,3 +85,12 @@ Theorem C01_run_unverified_without_key :
     client_run H ed_verify ed_point v None xs = (outs, e) -> Forall (fun o => o_verified o = false) outs.
 Proof. exact run_unverified. Qed.
 Print Assumptions C01_run_unverified_without_key.
+
+(* ---- tie to the source: the integer literals of the functions this property's model stands for
+   (private constants, bounds, unit factors; the files are SiteMap.files_C01) are today the ones the
+   model was written against. Gen/Sites.v num_literals is regenerated from /repo on every run; a
+   changed, added or removed number in a modelled function breaks this obligation ---- *)
+Require RV.Gen.Sites RV.Model.SiteMap.
+Theorem C01_literals_reviewed : RV.Model.SiteMap.literals_ok RV.Model.SiteMap.files_C01.
+Proof. repeat constructor. Qed.
+Print Assumptions C01_literals_reviewed.
